@@ -3,6 +3,7 @@
 import json, os, subprocess
 
 HOOK_COMMITS = ["a31c321"]
+C14_ENGINE = "c14"
 
 CHECKS = {
  "C01": dict(cat="exploration", tech="property-based testing (seeded proptest choice streams + bounded-exhaustive tiny grammar) against an independent reference tokenizer",
@@ -38,12 +39,27 @@ CHECKS = {
  "C11": dict(cat="exploration", tech="metamorphic property testing over call histories (scout iterator for agreement, peek-free twin for purity)",
    text="peek_n results must equal what a scout iterator returns for the next calls of next() in the unchanged mode (stop at n / mode-switch token / end), with the prescribed classification and target mode; the same history without peeks on a twin must give identical tokens and modes.",
    note="when exactly n tokens were found and the last one switches modes both Matches and MatchesReachedModeSwitch are accepted (statement's outcomes overlap)", ref="5 C11"),
+ "C12": dict(cat="exploration", tech="model-free metamorphic property testing over interleaved multi-iterator histories (isolated replay as oracle)",
+   text="Interleaved histories over up to 2 scanners from build() (same cache entry), up to 6 iterators and 2-3 inputs; each iterator's own sub-history is replayed alone on a scanner from build_uncached() and every observation must be identical.",
+   note="offsets are mapped onto character boundaries of the iterator's own input", ref="5 C12"),
+ "C13": dict(cat="exploration", tech="differential property testing over generated build sequences (build() vs build_uncached()), near-identical key variants and failing builds",
+   text="Sequences of 3-10 builds from a pool of a base configuration, near-identical variants, an unrelated and failing configurations; every build() is compared with build_uncached(): outcome, mode names, token streams on probe inputs from all variants' languages, automaton dumps (class predicates on a probe set; exact language equivalence when dumps differ and for the last build of every fourth case).",
+   note="mode names carry a per-execution nonce so executions never share cache entries; the process-wide cache cannot be reset", ref="5 C13"),
+ "C14": dict(cat="exploration", engine="c14", tech="randomized stress of generated thread programs on real threads with seeded schedule perturbation against sequential execution; compile-time Send+Sync bound; thorough adds ThreadSanitizer and Miri many-seeds",
+   text="Weakest claim of the set: schedules are sampled, not enumerated. 2-8 thread programs of cache builds (hits, misses, failing) and scans on a shared Arc<Scanner>, barrier-aligned, spin/yield perturbation, 20 repetitions with fresh cache keys per case; every observation must equal the sequential one; panics and no-progress (watchdog) are violations; the check binary only compiles if Scanner: Send + Sync.",
+   note="the harness owns the schedule only under Miri (thorough, small fixed programs); a race needing one specific interleaving of the real RwLock is found only by luck or by TSan/Miri instrumentation", ref="5 C14, 8"),
  "C15": dict(cat="exploration", tech="property-based testing (token-level random strings and supported expressions with one planted unsupported construct) against a reference verdict classifier",
    text="Expected Ok/Err derived from regex-syntax's parse plus a walk of the whole AST; build must never panic, must reject syntax errors and documented-unsupported constructs anywhere in any mode or lookahead, must accept the supported subset; afterwards the process-wide cache must still serve a valid build.",
    note="Unicode classes with a plausible name may build or not (statement only fixes unknown/valued ones); shares regex-syntax's parser with scnr", ref="5 C15"),
  "C16": dict(cat="exploration", tech="round-trip property testing with an independent JSON emitter and exact automaton equivalence of the rebuilt scanner",
    text="from_str(to_string(x)) == x, byte-stable re-serialization, README layout written by an independent emitter accepted, equal build outcome, language-equivalent automata per mode and lookahead plus equal token streams for the rebuilt scanner; Match/MatchExt/Span/Position values round-trip; README example deserializes to its two modes.",
    note="configurations are constructed with sorted transitions (ScannerMode::new debug-asserts that)", ref="5 C16"),
+ "C17": dict(cat="exploration", tech="property-based testing over parametrised families of large pattern sets against closed-form longest-match expectations",
+   text="Quick: 16 generated instances with 1 000-16 000 unminimized states (50x beyond the suite). Thorough: additionally fixed instances crossing 65 535 states (lists of 65 534 / 65 537 / 66 000 / 70 000 one-character patterns, x{66000}y). Build may return Err; a panic or a wrong token stream is a violation.",
+   note="quick does not cross the 2^16 boundary (each crossing costs minutes; all build phases are quadratic); closed forms are cross-checked with the reference tokenizer on small instances", ref="5 C17"),
+ "C18": dict(cat="fault_enumeration", tech="property-based testing: generated configurations exported, files parsed by a strict DOT parser and compared by content with the feature-gated automaton dump; enumerated unwritable-target faults",
+   text="Exactly one well-formed file per mode; nodes = states, T<t> exactly on accepting non-start states, multiset of (source, class id, target) edges = transitions, one cluster per lookahead with T<t> and polarity containing its automaton; injected faults (missing folder, file as folder, directory as output file, over-long prefix) must give Err without panic.",
+   note="colours, shapes, node names, titles and the class text before (C#id) are not asserted; mode names identifier-like; read-only folder fault not reachable as root", ref="5 C18"),
 }
 
 NOT_YET = {}
@@ -81,7 +97,9 @@ def main():
             "add_only": True,
         },
         "engines": [
-            {"name": "vh", "path": "/verif/harness/vh", "serves_properties": sorted(CHECKS.keys()),
+            {"name": "c14", "path": "/verif/harness/c14", "serves_properties": ["C14"],
+             "kind_free_text": "separate Rust binary (so that a Scanner that is not Send+Sync breaks only this check): thread-program generator and runner on top of the vh library; tools/c14_thorough.sh adds the ThreadSanitizer build and Miri many-seeds"},
+            {"name": "vh", "path": "/verif/harness/vh", "serves_properties": sorted(k for k in CHECKS.keys() if k != "C14"),
              "kind_free_text": "Rust binary: seeded proptest TestRunner over byte choice streams decoded by hand-written generators, independent reference model (regex matcher, tokenizer, iterator model, derivative automata), structural shrinker, replay and evidence writer"},
         ],
         "checks": checks,
